@@ -122,12 +122,24 @@ Definition c06_oracle (sc : scenario) (o : observation) : option bool :=
     if others_cold || conns_cold then None
     else
       let '(pos_end, act_end) := end_marks sc o 0 in
+      (* a hand-driven source (id >= 1000) pushed from INSIDE the subscriber's terminal callback (a push reaction on that very
+         callback): the terminal's delivery has not returned yet, the teardown follows it - such a probe is not constrained *)
+      let es0 := uentries (uenc (UTop 0)) (ob_log o) in
+      let in_term_cb (s loglen c : nat) :=
+        match term_entry es0 with
+        | Some (p, ct) =>
+            Nat.leb 1000 s && Nat.eqb loglen (S p) && Nat.eqb c ct &&
+            existsb (fun ir : nat * reaction =>
+                       Nat.eqb (fst ir) (length (filter (fun pce : nat * nat * ev => Nat.ltb (fst (fst pce)) p) es0)) &&
+                       match snd ir with RPush _ _ => true | _ => false end) (reactions_of sc 0)
+        | None => false
+        end in
       let probes_ok :=
         forallb (fun pr : nat * nat * nat * bool * nat * nat =>
-                   let '(_, _, _, alive, loglen, c) := pr in
+                   let '(s, _, _, alive, loglen, c) := pr in
                    let after_pos := match pos_end with Some p => Nat.ltb p loglen | None => false end in
                    let after_act := match act_end with Some a => Nat.leb a c | None => false end in
-                   if after_pos || after_act then negb alive else true) (ob_probes o) in
+                   if (after_pos || after_act) && negb (in_term_cb s loglen c) then negb alive else true) (ob_probes o) in
       let all_ended (flags : list bool) := forallb negb flags in
       let counts_ok :=
         match rev (ob_snaps o) with
